@@ -205,8 +205,10 @@ func c18Configs(tier string) []c18Cfg {
 		}
 	}
 	// group filtering: enable x disable on representative sequences
-	enables := []string{"<all>", "gStyle", "#style", "#experimental", "nosuch", "gExp", "#style,#experimental", "hB,#test", "gStyleExp,#experimental", ""}
-	disables := []string{"", "gNone", "#style", "#test", "gStyle,#test", "#experimental", "nosuch"}
+	enables := []string{"<all>", "gStyle", "#style", "#experimental", "nosuch", "gExp", "#style,#experimental", "hB,#test", "gStyleExp,#experimental", "",
+		// a blank after the comma (the usual way to write a list) does not change what an entry means
+		"nosuch, #style", "gStyle, #experimental", " #test"}
+	disables := []string{"", "gNone", "#style", "#test", "gStyle,#test", "#experimental", "nosuch", "gNone, #test", " #style "}
 	for _, s := range [][]string{{"validA"}, {"validA", "validB"}, {"validB", "syntaxerr", "validA"}, {"badimport", "validA"}} {
 		for _, en := range enables {
 			for _, di := range disables {
